@@ -3,7 +3,7 @@ CONSTANTS
   QNames = {3}
   ZNames = {1}
   Types = {1, 2}
-  Classes = {1, 2}
+  Classes = {1}
   CDs = {0}
   Scopes = {0, 1}
   Min = 1
